@@ -6,6 +6,11 @@
 //	sweep     a child process stores a new value over a previous one with RLIMIT_FSIZE = k for
 //	          k = 0..len (the write fails after exactly k bytes) and reads back through the real getter
 //	roundtrip store then get, compared with reflect.DeepEqual
+//	history   2..4 real Store calls on the same file, each in its own child process under strace over
+//	          whatever the earlier ones left in the directory; a store completes, has its write fail after
+//	          k bytes (RLIMIT_FSIZE = k, SIGXFSZ ignored -> EFBIG), or is killed (RLIMIT_FSIZE = k with the
+//	          default action of SIGXFSZ restored, or SIGKILL injected on entry of fchmod / fsync / rename);
+//	          after every store the file is read through the real getter
 package main
 
 import (
@@ -23,6 +28,7 @@ import (
 	"strconv"
 	"strings"
 	"syscall"
+	"unsafe"
 
 	"github.com/ChainSafe/sygma-relayer/keyshare"
 	"github.com/ChainSafe/sygma-relayer/topology"
@@ -47,19 +53,34 @@ type Value struct {
 	Topo      []TopoPeer `json:"topo,omitempty"`
 }
 
+// Step is one store attempt of a history.  The number of bytes after which a write fails / the process
+// dies is chosen relative to real lengths (known only when the values are serialised): Ref = -1: Permille
+// of the step's own length; Ref = j >= 0: between the length of step j's value (exclusive) and the own
+// length (a LONGER value dying beyond the end of a SHORTER one that is stored later), Ref = -2: same
+// against the initial value.
+type Step struct {
+	Value    Value  `json:"value"`
+	Mode     string `json:"mode"`              // ok | efbig | kill | killat
+	Ref      int    `json:"ref,omitempty"`
+	Permille int    `json:"permille,omitempty"`
+	Syscall  string `json:"syscall,omitempty"` // killat: fchmod | fsync | rename
+}
+
 type Case struct {
-	Kind  string `json:"kind"`  // trace | sweep | roundtrip
+	Kind  string `json:"kind"`  // trace | sweep | roundtrip | history
 	Store string `json:"store"` // ecdsa | frost | topology
 	Old   *Value `json:"old,omitempty"`
 	New   Value  `json:"new"`
+	Steps []Step `json:"steps,omitempty"` // history
 	G     int    `json:"g,omitempty"`    // trace: spacing of the write cut points the judge enumerates
 	Step  int    `json:"step,omitempty"` // sweep: 1 = every k; n > 1 = every k in the first and last 192 bytes and every n-th in between
 }
 
 type Op struct {
-	Op   string `json:"op"` // opentrunc openexcl write fsync close rename remove unknown
+	Op   string `json:"op"` // opentrunc openexcl openkeep write writeat fsync close rename remove unknown
 	P    int    `json:"p"`
 	Q    int    `json:"q,omitempty"`
+	Off  int    `json:"off,omitempty"` // writeat
 	Data string `json:"data,omitempty"` // hex
 	Note string `json:"note,omitempty"`
 }
@@ -75,6 +96,19 @@ type Obs struct {
 	Equal bool   `json:"equal,omitempty"`
 	File  string `json:"file,omitempty"` // roundtrip of a topology: hex of the stored file
 	Note  string `json:"note,omitempty"`
+	Hist  []StepObs `json:"hist,omitempty"`
+	Vids  []int     `json:"vids,omitempty"` // history: number of the initial value and of each step's value (equal values share a number)
+}
+
+// StepObs is what one store attempt of a history did.
+type StepObs struct {
+	Fate string `json:"fate"` // done | failed | died (from the plan: a limit >= the length is no limit)
+	K    int    `json:"k"`    // resolved byte limit (-1: none)
+	Data string `json:"data"` // hex of the bytes a complete store of the value writes
+	Ops  []Op   `json:"ops"`
+	Read int    `json:"read"` // number of the value the real getter returned afterwards, -1 = error / other
+	File string `json:"file"` // hex of the file afterwards
+	End  string `json:"end"`  // how the child ended
 }
 
 // ---- values ------------------------------------------------------------------------------------------
@@ -215,6 +249,25 @@ type childArgs struct {
 	Old   *Value `json:"old,omitempty"`
 	New   Value  `json:"new"`
 	Ks    []int  `json:"ks,omitempty"`
+	Limit int    `json:"limit,omitempty"` // hstore: RLIMIT_FSIZE, -1 = none
+	Fatal bool   `json:"fatal,omitempty"` // hstore: exceeding the limit kills the process (default action of SIGXFSZ)
+}
+
+// makeXFSZFatal restores the kernel's default action (terminate) for SIGXFSZ; the Go runtime installs
+// a handler that ignores it, which turns "dies after k bytes" into "the write fails after k bytes".
+func makeXFSZFatal() error {
+	type ksigaction struct {
+		handler  uintptr // SIG_DFL = 0
+		flags    uint64
+		restorer uintptr
+		mask     uint64
+	}
+	var sa ksigaction
+	_, _, e := syscall.RawSyscall6(syscall.SYS_RT_SIGACTION, uintptr(syscall.SIGXFSZ), uintptr(unsafe.Pointer(&sa)), 0, 8, 0, 0)
+	if e != 0 {
+		return e
+	}
+	return nil
 }
 
 func childMain(mode string) {
@@ -233,6 +286,34 @@ func childMain(mode string) {
 		}
 		if err := doStore(a.Store, a.Path, val); err != nil {
 			fmt.Fprintln(os.Stderr, "child: store failed:", err)
+			os.Exit(4)
+		}
+	case "hstore":
+		// one real Store call, possibly under a byte-exact file size limit
+		val := build(a.Store, a.New)
+		_ = syscall.Setrlimit(syscall.RLIMIT_CORE, &syscall.Rlimit{Cur: 0, Max: 0})
+		if a.Fatal {
+			if err := makeXFSZFatal(); err != nil {
+				fmt.Fprintln(os.Stderr, "child: rt_sigaction:", err)
+				os.Exit(3)
+			}
+		} else {
+			signal.Ignore(syscall.SIGXFSZ)
+		}
+		if f, err := os.Create(a.Path + ".marker"); err == nil {
+			f.Close()
+		}
+		if a.Limit >= 0 {
+			var lim syscall.Rlimit
+			if err := syscall.Getrlimit(syscall.RLIMIT_FSIZE, &lim); err != nil {
+				os.Exit(3)
+			}
+			lim.Cur = uint64(a.Limit)
+			if err := syscall.Setrlimit(syscall.RLIMIT_FSIZE, &lim); err != nil {
+				os.Exit(3)
+			}
+		}
+		if err := doStore(a.Store, a.Path, val); err != nil {
 			os.Exit(4)
 		}
 	case "sweep":
@@ -337,6 +418,12 @@ func unx(s string) []byte {
 
 // translate turns the strace log into model operations on the files of dir (target = path 0).
 func translate(log, dir, target string) ([]Op, error) {
+	return translateIds(log, dir, target, map[string]int{target: 0})
+}
+
+// translateIds: ids numbers the files of the directory (shared by the attempts of a history, so that a
+// file left behind by one attempt is the same file for the next).
+func translateIds(log, dir, target string, ids map[string]int) ([]Op, error) {
 	f, err := os.Open(log)
 	if err != nil {
 		return nil, err
@@ -345,7 +432,7 @@ func translate(log, dir, target string) ([]Op, error) {
 	pending := map[string]string{}
 	fds := map[int]string{}   // fd -> current path of the file it was opened on (write-capable)
 	rofds := map[int]bool{}   // read-only descriptors on files of dir
-	ids := map[string]int{target: 0}
+	offs := map[int]int{}     // descriptors opened without O_TRUNC / O_EXCL / O_APPEND: current offset
 	id := func(p string) int {
 		if n, ok := ids[p]; ok {
 			return n
@@ -416,9 +503,17 @@ func translate(log, dir, target string) ([]Op, error) {
 				fds[ret] = p
 			case strings.Contains(flags, "O_RDONLY") && !strings.Contains(flags, "O_CREAT"):
 				rofds[ret] = true
-			default:
+			case strings.Contains(flags, "O_TMPFILE") || strings.Contains(flags, "O_PATH") || strings.Contains(flags, "O_DIRECTORY"):
 				ops = append(ops, Op{Op: "unknown", P: id(p), Note: name + " " + flags})
 				fds[ret] = p
+			default:
+				// no O_TRUNC, no O_EXCL: whatever the file holds stays; writes start at offset 0
+				// (O_APPEND: at the end, i.e. the model's appending Write)
+				ops = append(ops, Op{Op: "openkeep", P: id(p), Note: flags})
+				fds[ret] = p
+				if !strings.Contains(flags, "O_APPEND") {
+					offs[ret] = 0
+				}
 			}
 		case "write", "pwrite64":
 			fd := fdArg()
@@ -434,8 +529,13 @@ func translate(log, dir, target string) ([]Op, error) {
 			if ret < len(data) {
 				data = data[:ret]
 			}
-			ops = append(ops, Op{Op: "write", P: id(p), Data: hex.EncodeToString(data)})
-		case "writev", "ftruncate", "fallocate", "dup", "dup2", "dup3", "sendfile", "copy_file_range":
+			if off, keep := offs[fd]; keep {
+				ops = append(ops, Op{Op: "writeat", P: id(p), Off: off, Data: hex.EncodeToString(data)})
+				offs[fd] = off + len(data)
+			} else {
+				ops = append(ops, Op{Op: "write", P: id(p), Data: hex.EncodeToString(data)})
+			}
+		case "writev", "ftruncate", "fallocate", "dup", "dup2", "dup3", "sendfile", "copy_file_range", "lseek", "pwritev", "pwritev2":
 			fd := fdArg()
 			if p, ok := fds[fd]; ok && started {
 				ops = append(ops, Op{Op: "unknown", P: id(p), Note: name})
@@ -453,6 +553,7 @@ func translate(log, dir, target string) ([]Op, error) {
 				delete(fds, fd)
 			}
 			delete(rofds, fd)
+			delete(offs, fd)
 		case "rename", "renameat", "renameat2":
 			a, b := pathArg(0), pathArg(1)
 			if !started || (!inDir(a) && !inDir(b)) {
@@ -494,6 +595,164 @@ func translate(log, dir, target string) ([]Op, error) {
 
 // ---- driving ----------------------------------------------------------------------------------------------
 
+const traceSet = "trace=open,openat,creat,write,pwrite64,pwritev,pwritev2,writev,lseek,ftruncate,truncate,fallocate,fsync,fdatasync,fchmod,close,rename,renameat,renameat2,unlink,unlinkat,dup,dup2,dup3,sendfile,copy_file_range,link,linkat,symlink,symlinkat"
+
+// spawnEnd runs a child whose death is an expected outcome; it reports how the child ended.
+func spawnEnd(mode string, a childArgs, wrap []string) string {
+	b, _ := json.Marshal(a)
+	self, err := os.Executable()
+	if err != nil {
+		return "spawn: " + err.Error()
+	}
+	argv := append(append([]string{}, wrap...), self)
+	cmd := exec.Command(argv[0], argv[1:]...)
+	cmd.Env = append(os.Environ(), "C18_CHILD="+mode, "C18_ARGS="+string(b))
+	err = cmd.Run()
+	if err == nil {
+		return "exit 0"
+	}
+	if ee, ok := err.(*exec.ExitError); ok {
+		if ws, ok := ee.Sys().(syscall.WaitStatus); ok {
+			if ws.Signaled() {
+				return "signal " + ws.Signal().String()
+			}
+			return fmt.Sprintf("exit %d", ws.ExitStatus())
+		}
+	}
+	return "spawn: " + err.Error()
+}
+
+// intended returns the bytes a complete, healthy store of v writes (real store into a scratch file).
+func intended(store string, v Value, scratch string) ([]byte, error) {
+	p := filepath.Join(scratch, "intended.json")
+	os.Remove(p)
+	if err := doStore(store, p, build(store, v)); err != nil {
+		return nil, err
+	}
+	return os.ReadFile(p)
+}
+
+func runHistory(c Case, dir, path string) Obs {
+	scratch := filepath.Join(dir, "scratch")
+	if err := os.MkdirAll(scratch, 0o755); err != nil {
+		return Obs{Err: err.Error()}
+	}
+	sdir := filepath.Join(dir, "d")
+	if err := os.MkdirAll(sdir, 0o755); err != nil {
+		return Obs{Err: err.Error()}
+	}
+	path = filepath.Join(sdir, "store.json")
+	// values: 0 = the initial one, i = the value of step i-1; equal values share a number
+	vals := []interface{}{build(c.Store, *c.Old)}
+	datas := [][]byte{}
+	d0, err := intended(c.Store, *c.Old, scratch)
+	if err != nil {
+		return Obs{Err: "intended(old): " + err.Error()}
+	}
+	datas = append(datas, d0)
+	for _, st := range c.Steps {
+		vals = append(vals, build(c.Store, st.Value))
+		d, err := intended(c.Store, st.Value, scratch)
+		if err != nil {
+			return Obs{Err: "intended: " + err.Error()}
+		}
+		datas = append(datas, d)
+	}
+	vids := make([]int, len(vals))
+	for i := range vals {
+		vids[i] = i
+		for j := 0; j < i; j++ {
+			if equal(vals[j], vals[i]) {
+				vids[i] = vids[j]
+				break
+			}
+		}
+	}
+	if err := doStore(c.Store, path, vals[0]); err != nil {
+		return Obs{Err: "store(old): " + err.Error()}
+	}
+	oldBytes, _ := os.ReadFile(path)
+	o := Obs{Old: hex.EncodeToString(oldBytes), Vids: vids}
+	ids := map[string]int{path: 0}
+	for i, st := range c.Steps {
+		own := len(datas[i+1])
+		so := StepObs{K: -1, Data: hex.EncodeToString(datas[i+1]), Fate: "done"}
+		wrap := []string{"strace", "-f", "-qq", "-xx", "-s", "1000000"}
+		args := childArgs{Store: c.Store, Path: path, New: st.Value, Limit: -1}
+		switch st.Mode {
+		case "efbig", "kill":
+			lo, hi := 0, own-1
+			if st.Ref != -1 {
+				ref := 0
+				if st.Ref >= 0 && st.Ref < len(c.Steps) {
+					ref = st.Ref + 1
+				}
+				if l := len(datas[ref]) + 1; l <= hi {
+					lo = l
+				}
+			}
+			k := lo
+			if hi > lo {
+				k = lo + (hi-lo)*st.Permille/1000
+			}
+			if k < 0 {
+				k = 0
+			}
+			so.K = k
+			args.Limit = k
+			args.Fatal = st.Mode == "kill"
+			if k < own {
+				so.Fate = map[string]string{"efbig": "failed", "kill": "died"}[st.Mode]
+			}
+		case "killat":
+			sc := map[string]string{"fchmod": "fchmod,fchmodat", "fsync": "fsync,fdatasync", "rename": "rename,renameat,renameat2"}[st.Syscall]
+			if sc == "" {
+				return Obs{Err: "unknown killat syscall " + st.Syscall}
+			}
+			wrap = append(wrap, "-e", "inject="+sc+":signal=SIGKILL:when=1")
+			so.Fate = "died"
+		}
+		log := filepath.Join(tmpRoot, fmt.Sprintf("strace%d_%d.log", caseNo, i))
+		wrap = append(wrap, "-o", log, "-e", traceSet+",fchmodat")
+		so.End = spawnEnd("hstore", args, wrap)
+		ops, err := translateIds(log, sdir, path, ids)
+		os.Remove(log)
+		if err != nil {
+			return Obs{Err: "translate: " + err.Error()}
+		}
+		if strings.HasPrefix(so.End, "spawn:") || so.End == "exit 3" {
+			return Obs{Err: "history child: " + so.End}
+		}
+		// a store that was to be killed must have been killed (otherwise the harness did not do what the
+		// case says)
+		if so.Fate == "died" && !strings.HasPrefix(so.End, "signal") {
+			if st.Mode == "killat" && so.End == "exit 0" {
+				so.Fate = "done" // the store never made that call: it was a healthy, complete store
+			} else {
+				return Obs{Err: fmt.Sprintf("step %d (%s) was to die but ended with %s", i, st.Mode, so.End)}
+			}
+		}
+		so.Ops = ops
+		fb, err := os.ReadFile(path)
+		if err != nil {
+			fb = nil
+			so.Read = -1
+		}
+		so.File = hex.EncodeToString(fb)
+		so.Read = -1
+		if got, err := doGet(c.Store, path); err == nil {
+			for j := range vals {
+				if equal(got, vals[j]) {
+					so.Read = vids[j]
+					break
+				}
+			}
+		}
+		o.Hist = append(o.Hist, so)
+	}
+	return o
+}
+
 var tmpRoot string
 var caseNo int
 
@@ -526,6 +785,8 @@ func run(c Case) (o Obs) {
 	defer os.RemoveAll(dir)
 	path := filepath.Join(dir, "store.json")
 	switch c.Kind {
+	case "history":
+		return runHistory(c, dir, path)
 	case "roundtrip":
 		v := build(c.Store, c.New)
 		if err := doStore(c.Store, path, v); err != nil {
@@ -558,8 +819,7 @@ func run(c Case) (o Obs) {
 		log := filepath.Join(tmpRoot, fmt.Sprintf("strace%d.log", caseNo))
 		defer os.Remove(log)
 		_, err := spawn("store", childArgs{Store: c.Store, Path: path, New: c.New},
-			[]string{"strace", "-f", "-qq", "-xx", "-s", "1000000", "-o", log, "-e",
-				"trace=open,openat,creat,write,pwrite64,writev,ftruncate,truncate,fallocate,fsync,fdatasync,close,rename,renameat,renameat2,unlink,unlinkat,dup,dup2,dup3,sendfile,copy_file_range,link,linkat,symlink,symlinkat"})
+			[]string{"strace", "-f", "-qq", "-xx", "-s", "1000000", "-o", log, "-e", traceSet})
 		if err != nil {
 			return Obs{Err: "strace child: " + err.Error()}
 		}
@@ -693,6 +953,105 @@ func gen(r *vgen.Rng, tier string) []Case {
 	return out
 }
 
+// sized values: a LONG and a SHORT value of a store (the bytes of the short one end before those of the
+// long one: fewer peers / addresses)
+func genSized(r *vgen.Rng, store string, long bool) Value {
+	if store == "topology" {
+		if long {
+			return genTopo(r, r.Range(4, 7))
+		}
+		return genTopo(r, r.Range(0, 2))
+	}
+	v := genShare(r, r.Intn(3))
+	if long {
+		v.Peers = genPeerIDs(r, r.Range(5, 8))
+		v.Threshold = r.Range(10, 99)
+	} else {
+		v.Peers = []string{}
+		v.Threshold = r.Range(1, 9)
+	}
+	return v
+}
+
+func genHistories(r *vgen.Rng, thorough bool) []Case {
+	var out []Case
+	nh := map[string]int{"topology": 10, "frost": 5, "ecdsa": 3}
+	if thorough {
+		nh = map[string]int{"topology": 80, "frost": 30, "ecdsa": 10}
+	}
+	killats := []string{"fchmod", "fsync", "rename"}
+	for _, st := range []string{"topology", "frost", "ecdsa"} {
+		g := 1
+		if st == "ecdsa" {
+			g = 97
+		}
+		for i := 0; i < nh[st]; i++ {
+			old := genValue(r, st)
+			c := Case{Kind: "history", Store: st, Old: &old, G: g}
+			switch i % 5 {
+			case 0:
+				// a LONGER value dies beyond the end of the SHORTER one stored next
+				c.Steps = []Step{
+					{Value: genSized(r, st, true), Mode: "kill", Ref: 1, Permille: r.Intn(1000)},
+					{Value: genSized(r, st, false), Mode: "ok", Ref: -1},
+				}
+			case 1:
+				// the same with a failing write in between and a death between the calls of the store
+				c.Steps = []Step{
+					{Value: genSized(r, st, true), Mode: vgen.Pick(r, []string{"kill", "killat"}), Ref: 2, Permille: r.Intn(1000), Syscall: vgen.Pick(r, killats)},
+					{Value: genSized(r, st, true), Mode: "efbig", Ref: 2, Permille: r.Intn(1000)},
+					{Value: genSized(r, st, false), Mode: "ok", Ref: -1},
+				}
+			case 2:
+				// completed, then killed at the very end of the next store, then completed again
+				c.Steps = []Step{
+					{Value: genValue(r, st), Mode: "ok", Ref: -1},
+					{Value: genSized(r, st, true), Mode: "killat", Ref: -1, Syscall: vgen.Pick(r, killats)},
+					{Value: genSized(r, st, false), Mode: vgen.Pick(r, []string{"ok", "efbig"}), Ref: -1, Permille: r.Intn(1000)},
+				}
+			default:
+				n := r.Range(2, 4)
+				if st == "ecdsa" {
+					n = r.Range(2, 3)
+				}
+				for j := 0; j < n; j++ {
+					s := Step{Value: genSized(r, st, r.Bool()), Ref: -1, Permille: r.Intn(1000)}
+					if r.Chance(1, 3) {
+						s.Value = genValue(r, st)
+					}
+					switch r.Intn(6) {
+					case 0, 1:
+						s.Mode = "ok"
+					case 2:
+						s.Mode = "efbig"
+					case 3, 4:
+						s.Mode = "kill"
+						if r.Bool() { // beyond the end of another value of the history
+							s.Ref = r.Range(-2, n-1)
+							if s.Ref == -1 || s.Ref == j {
+								s.Ref = -2
+							}
+						}
+					case 5:
+						s.Mode = "killat"
+						s.Syscall = vgen.Pick(r, killats)
+					}
+					if r.Chance(1, 10) {
+						s.Permille = vgen.Pick(r, []int{0, 1, 999})
+					}
+					c.Steps = append(c.Steps, s)
+				}
+				// the last store of most histories completes (the getter must then return its value)
+				if r.Chance(2, 3) {
+					c.Steps[n-1].Mode = "ok"
+				}
+			}
+			out = append(out, c)
+		}
+	}
+	return out
+}
+
 func genAll(r *vgen.Rng, tier string) []Case {
 	var out []Case
 	thorough := tier == "thorough"
@@ -711,6 +1070,8 @@ func genAll(r *vgen.Rng, tier string) []Case {
 			out = append(out, Case{Kind: "trace", Store: st, Old: &old, New: nw, G: g})
 		}
 	}
+	// histories
+	out = append(out, genHistories(r, thorough)...)
 	// failed-write sweeps at every byte offset 0..len
 	nsw := map[string]int{"topology": 6, "frost": 3, "ecdsa": 1}
 	if thorough {
@@ -813,6 +1174,10 @@ func coqOp(o Op, shared string) string {
 			return "Write " + p + " d"
 		}
 		return "Write " + p + " " + lit(o.Data)
+	case "openkeep":
+		return "OpenKeep " + p
+	case "writeat":
+		return "WriteAt " + p + " " + strconv.Itoa(o.Off) + " " + lit(o.Data)
 	case "fsync":
 		return "Fsync " + p
 	case "close":
@@ -825,6 +1190,53 @@ func coqOp(o Op, shared string) string {
 	return "Unknown"
 }
 
+// coqHistory renders a history; the complete values' bytes are bound once (d0 = initial, d<i> = step i)
+// and writes / file contents that are one of them or a prefix of one are expressed through them.
+func coqHistory(c Case, o Obs) string {
+	datas := []string{o.Old}
+	for _, so := range o.Hist {
+		datas = append(datas, so.Data)
+	}
+	ref := func(h string) string {
+		for i, d := range datas {
+			if h == d {
+				return fmt.Sprintf("d%d", i)
+			}
+		}
+		for i := len(datas) - 1; i >= 0; i-- {
+			if len(h) > 0 && strings.HasPrefix(datas[i], h) {
+				return fmt.Sprintf("(firstn %d d%d)", len(h)/2, i)
+			}
+		}
+		return lit(h)
+	}
+	var sb strings.Builder
+	sb.WriteString("(")
+	for i, d := range datas {
+		fmt.Fprintf(&sb, "let d%d := %s in ", i, lit(d))
+	}
+	atts := make([]string, len(o.Hist))
+	for i, so := range o.Hist {
+		ops := vgen.ListOf(so.Ops, func(x Op) string {
+			switch x.Op {
+			case "write":
+				return "Write " + vgen.N(uint64(x.P)) + " " + ref(x.Data)
+			case "writeat":
+				return "WriteAt " + vgen.N(uint64(x.P)) + " " + strconv.Itoa(x.Off) + " " + ref(x.Data)
+			}
+			return coqOp(x, "")
+		})
+		read := "ROther"
+		if so.Read >= 0 {
+			read = "(RVal " + vgen.N(uint64(so.Read)) + ")"
+		}
+		fate := map[string]string{"done": "Done", "failed": "Failed", "died": "Died"}[so.Fate]
+		atts[i] = "mkHAtt " + vgen.N(uint64(o.Vids[i+1])) + " " + fate + " " + fmt.Sprintf("d%d", i+1) + " " + ops + " " + read + " " + ref(so.File)
+	}
+	sb.WriteString("History " + vgen.N(uint64(c.G)) + " d0 " + vgen.N(uint64(o.Vids[0])) + " " + vgen.List(atts) + ")")
+	return sb.String()
+}
+
 func coq(c Case, o Obs) string {
 	if o.Err != "" {
 		// harness-level failure: the judge has no opinion ([] holds no outcome), the model disagrees
@@ -832,6 +1244,8 @@ func coq(c Case, o Obs) string {
 		return "Sweep 0%N []"
 	}
 	switch c.Kind {
+	case "history":
+		return coqHistory(c, o)
 	case "trace":
 		// the final contents usually are the data of one write: share the literal
 		return "(let d := " + lit(o.Final) + " in Trace " + vgen.N(uint64(c.G)) + " " + lit(o.Old) + " " +
@@ -891,9 +1305,11 @@ func main() {
 				return len(o.Ops) > 0
 			case "sweep":
 				return o.Len > 0
+			case "history":
+				return len(o.Hist) >= 2
 			}
 			return c.Store != "topology" || len(c.New.Topo) > 0
 		},
-		Rule: "traces: one real store of a generated value over a generated previous value per case, run under strace in a child process; sweeps: a child process repeats the real store with RLIMIT_FSIZE = k for k = 0..len (every byte offset, for all three stores) and reads back with the real getter; round trips: topologies of 0..7 peers with 0..2 addresses each and thresholds 1..6, the three fixture ECDSA and FROST shares with generated thresholds and 0, 2..4 peers; distinct = distinct input JSON; non-trivial = trace with at least one translated operation / sweep over a non-empty file / round trip of a key share or a topology with at least one peer",
+		Rule: "traces: one real store of a generated value over a generated previous value per case, run under strace in a child process; sweeps: a child process repeats the real store with RLIMIT_FSIZE = k for k = 0..len (every byte offset, for all three stores) and reads back with the real getter; histories: 2..4 real stores of generated values of different lengths on one file, each in its own child process under strace over the leftovers of the earlier ones, completing / failing after k bytes (RLIMIT_FSIZE, SIGXFSZ ignored) / killed after k bytes (SIGXFSZ fatal) or on entry of fchmod, fsync, rename (SIGKILL), k chosen over the whole value and beyond the end of a shorter value stored later, the real getter after every store, for all three stores; round trips: topologies of 0..7 peers with 0..2 addresses each and thresholds 1..6, the three fixture ECDSA and FROST shares with generated thresholds and 0, 2..4 peers; distinct = distinct input JSON; non-trivial = trace with at least one translated operation / history of at least two observed stores / sweep over a non-empty file / round trip of a key share or a topology with at least one peer",
 	})
 }
